@@ -173,7 +173,123 @@ func (ts *TermStore) BoundAt(name string, s Sort, depth int) *Term {
 }
 
 func (ts *TermStore) App(op string, s Sort, args ...*Term) *Term {
+	if r := ts.fold(op, s, args); r != nil {
+		return r
+	}
 	return ts.intern(kApp, op, s, args, nil)
+}
+
+func signExt(v uint64, w int) int64 {
+	if w >= 64 {
+		return int64(v)
+	}
+	if v&(uint64(1)<<uint(w-1)) != 0 {
+		return int64(v | ^((uint64(1) << uint(w)) - 1))
+	}
+	return int64(v)
+}
+
+// fold evaluates bit-vector operators on literal operands.
+func (ts *TermStore) fold(op string, s Sort, args []*Term) *Term {
+	if len(args) == 0 || len(args) > 2 {
+		return nil
+	}
+	vals := make([]uint64, len(args))
+	for i, a := range args {
+		if a.sort.bvWidth() == 0 {
+			return nil
+		}
+		v, ok := a.bvConst()
+		if !ok {
+			// identities with one literal
+			if len(args) == 2 && false {
+				o := args[1-i]
+				if ov, ok := o.bvConst(); ok && ov == 0 {
+					switch op {
+					case "bvadd", "bvor", "bvxor":
+						return a
+					case "bvsub", "bvshl", "bvlshr", "bvashr":
+						if i == 0 {
+							return a
+						}
+					}
+				}
+			}
+			return nil
+		}
+		vals[i] = v
+	}
+	w := args[0].sort.bvWidth()
+	mask := ^uint64(0)
+	if w < 64 {
+		mask = (uint64(1) << uint(w)) - 1
+	}
+	var n int
+	switch {
+	case strings.HasPrefix(op, "(_ zero_extend "):
+		return ts.BV(vals[0], s.bvWidth())
+	case strings.HasPrefix(op, "(_ sign_extend "):
+		return ts.BV(uint64(signExt(vals[0], w)), s.bvWidth())
+	case strings.HasPrefix(op, "(_ extract "):
+		var hi, lo int
+		if c, _ := fmt.Sscanf(op, "(_ extract %d %d)", &hi, &lo); c == 2 {
+			return ts.BV(vals[0]>>uint(lo), hi-lo+1)
+		}
+		return nil
+	}
+	_ = n
+	if len(args) == 1 {
+		switch op {
+		case "bvnot":
+			return ts.BV(^vals[0]&mask, w)
+		case "bvneg":
+			return ts.BV((-vals[0])&mask, w)
+		}
+		return nil
+	}
+	a, b := vals[0], vals[1]
+	sa, sb := signExt(a, w), signExt(b, w)
+	switch op {
+	case "bvadd":
+		return ts.BV((a+b)&mask, w)
+	case "bvsub":
+		return ts.BV((a-b)&mask, w)
+	case "bvmul":
+		return ts.BV((a*b)&mask, w)
+	case "bvand":
+		return ts.BV(a&b, w)
+	case "bvor":
+		return ts.BV(a|b, w)
+	case "bvxor":
+		return ts.BV(a^b, w)
+	case "bvshl":
+		if b >= uint64(w) {
+			return ts.BV(0, w)
+		}
+		return ts.BV((a<<b)&mask, w)
+	case "bvlshr":
+		if b >= uint64(w) {
+			return ts.BV(0, w)
+		}
+		return ts.BV(a>>b, w)
+	case "bvult":
+		return ts.BoolLit(a < b)
+	case "bvule":
+		return ts.BoolLit(a <= b)
+	case "bvugt":
+		return ts.BoolLit(a > b)
+	case "bvuge":
+		return ts.BoolLit(a >= b)
+	case "bvslt":
+		return ts.BoolLit(sa < sb)
+	case "bvsle":
+		return ts.BoolLit(sa <= sb)
+	case "bvsgt":
+		return ts.BoolLit(sa > sb)
+	case "bvsge":
+		return ts.BoolLit(sa >= sb)
+	}
+	return nil
 }
 
 func (ts *TermStore) Quant(q string, bvars []*Term, body *Term) *Term {
